@@ -345,6 +345,7 @@ impl Property for C15 {
                         }
                     }
                     let _ = (&live, fetched);
+                    ctx.begin(|| case_json(ty, page, &h));
                     match runner(page, &h) {
                         Ok(f) => {
                             if f.reused {
